@@ -318,3 +318,7 @@ impl SupervisionTree {
         usize::from(self.supervisor.lock().unwrap().is_some())
     }
 }
+
+#[cfg(slawlor_ractor_verif)]
+#[path = "/verif/hooks/supervision.rs"]
+pub(crate) mod verif_probe;
